@@ -399,6 +399,22 @@ def unmarshalTextWrap (p : Pkg) (inner : Bytes) : Bytes :=
 def unmarshalTextTooLong (p : Pkg) (fn input : Bytes) (max : Nat) : Bytes :=
   unmarshalTextWrap p (tooLongMessage p fn input max)
 
+-- `uu.InvalidDigitError(byte).Error()`
+def hexDigitUpper (n : Nat) : Nat := if n < 10 then 48 + n else 55 + n
+
+/-- `%U` of a byte: `U+00XX` -/
+def codePoint (c : Nat) : Bytes := [85, 43, 48, 48, hexDigitUpper (c / 16), hexDigitUpper (c % 16)]
+
+/-- `unicode.IsGraphic(rune(c))` for `c < 256`: printable ASCII and Latin-1 from U+00A0 except the soft hyphen U+00AD -/
+def isGraphicByte (c : Nat) : Bool := (32 ≤ c && c ≤ 126) || (160 ≤ c && c ≤ 255 && c != 173)
+
+/-- `%c` of `rune(c)` for `c < 256` in UTF-8 -/
+def utf8Latin1 (c : Nat) : Bytes := if c < 128 then [c] else [192 + c / 64, 128 + c % 64]
+
+def invalidDigitText (c : Nat) : Bytes :=
+  if isGraphicByte c then [105, 110, 118, 97, 108, 105, 100, 32, 100, 105, 103, 105, 116, 32, 39] ++ utf8Latin1 c ++ [39, 32, 40] ++ codePoint c ++ [41]
+  else [105, 110, 118, 97, 108, 105, 100, 32, 100, 105, 103, 105, 116, 32] ++ codePoint c
+
 end ErrMsg
 
 end U
